@@ -25,18 +25,33 @@ def main():
     P1 = MOD + '/internal/notify.'
     c1.load([P1 + 'VerifC16Notify'])
     j1 = [Job(P1 + 'VerifC16Notify', a, cfg=cfg, max_paths=100000) for a in
-          ([(1, 0, 0), (1, 1, 0), (1, 0, 1)] if t == 'quick' else [(1, 0, 0), (1, 1, 0), (1, 0, 1), (2, 0, 0), (2, 1, 0), (1, 1, 1)])]
+          ([(1, 0, 0), (1, 1, 0)] if t == 'quick' else [(1, 0, 0), (1, 1, 0), (1, 0, 1), (2, 0, 0), (2, 1, 0), (1, 1, 1)])]
     res += c1.run_jobs(j1)
     c1.cleanup()
+    pre = 2 if t == 'quick' else 3
+    c1b = Check('C16', [MOD + '/internal/notify'], 'internal/notify', ['C16/zz_verif_c16_notify_coop.go'],
+                installers=[seqchan.install], prelude_pkgname='notify')
+    c1b.load([P1 + 'VerifC16NotifyCoop'])
+    grid1 = [(1, 0, 0), (1, 1, 0), (2, 0, 0), (2, 1, 0), (1, 0, 1), (1, 1, 1)] if t == 'quick' else [(1, 0, 0), (1, 1, 0), (2, 0, 0), (2, 1, 0), (3, 0, 0), (1, 0, 1), (1, 1, 1), (2, 0, 1), (2, 1, 1)]
+    res += c1b.run_jobs([Job(P1 + 'VerifC16NotifyCoop', a, cfg={'unwind': 8, 'timeout_ms': 60000}, installers=[functools.partial(_coop_inst, pre)], max_paths=300000,
+                             label='VerifC16NotifyCoop(%d,%d,%d)[pre<=%d]' % (a + (pre,))) for a in grid1])
+    c1b.cleanup()
     # lifecycle manager
     c2 = Check('C16', [MOD + '/pkg/lifecycle', MOD + '/internal/notify'], 'pkg/lifecycle', ['C16/zz_verif_c16_lifecycle.go'],
                installers=[seqchan.install, bmc.install], prelude_pkgname='lifecycle')
     P2 = MOD + '/pkg/lifecycle.'
     c2.load([P2 + 'VerifC16Lifecycle'])
     j2 = [Job(P2 + 'VerifC16Lifecycle', a, cfg=cfg, max_paths=100000) for a in
-          ([(1, 0, 0), (1, 1, 0)] if t == 'quick' else [(1, 0, 0), (1, 1, 0), (1, 0, 1), (2, 0, 0), (1, 2, 0)])]
+          ([(1, 0, 0)] if t == 'quick' else [(1, 0, 0), (1, 1, 0), (1, 0, 1), (2, 0, 0), (1, 2, 0)])]
     res += c2.run_jobs(j2)
     c2.cleanup()
+    c2b = Check('C16', [MOD + '/pkg/lifecycle', MOD + '/internal/notify'], 'pkg/lifecycle', ['C16/zz_verif_c16_lifecycle_coop.go'],
+                installers=[seqchan.install], prelude_pkgname='lifecycle')
+    c2b.load([P2 + 'VerifC16LifecycleCoop'])
+    grid2 = [(1, 0, 0), (1, 1, 0), (2, 0, 0), (1, 0, 1)] if t == 'quick' else [(1, 0, 0), (1, 1, 0), (1, 2, 0), (2, 0, 0), (2, 1, 0), (1, 0, 1), (2, 0, 1)]
+    res += c2b.run_jobs([Job(P2 + 'VerifC16LifecycleCoop', a, cfg={'unwind': 8, 'timeout_ms': 60000}, installers=[functools.partial(_coop_inst, pre)], max_paths=300000,
+                             label='VerifC16LifecycleCoop(%d,%d,%d)[pre<=%d]' % (a + (pre,))) for a in grid2])
+    c2b.cleanup()
     # connectedness manager (root package): status word and notify internals are visible cells, maps pre-populated
     c3 = Check('C16', [MOD, MOD + '/internal/notify'], '', ['C16/zz_verif_c16_conn.go'],
                installers=[seqchan.install, bmc.install], prelude_pkgname='weshnet')
@@ -51,7 +66,6 @@ def main():
     c4 = Check('C16', [MOD, MOD + '/internal/notify'], '', ['C16/zz_verif_c16_conn_coop.go'],
                installers=[seqchan.install], prelude_pkgname='weshnet')
     c4.load([P3 + 'VerifC16ConnCoop'])
-    pre = 2 if t == 'quick' else 3
     res += c4.run_jobs([Job(P3 + 'VerifC16ConnCoop', (sc,), cfg={'unwind': 6, 'timeout_ms': 60000}, installers=[functools.partial(_coop_inst, pre)],
                             max_paths=200000, label='VerifC16ConnCoop(%d)[pre<=%d]' % (sc, pre)) for sc in (0, 1, 2, 3)])
     c2 = c4
@@ -62,7 +76,7 @@ def main():
                        'cell is a recorded visible operation with a symbolic result); for each tuple of operation sequences ONE formula with '
                        'free who_k / stop variables decides whether a stuck state (a goroutine unfinished, none able to move) or a failed '
                        'assertion is reachable, and that no sequence cut by the unwinding bound can be run to its end.',
-           bounds={'goroutines': '1-2 waiters + 1 updater (+ canceller)', 'unwind': 2, 'channels_made_per_goroutine': 2,
+           bounds={'goroutines': '1-2 waiters + 1 updater (+ canceller)', 'coop_notify(waiters, mode, cancel)': grid1, 'coop_lifecycle(waiters, no-op updates, cancel)': grid2, 'coop_preemption_bound': pre, 'unwind': 2, 'channels_made_per_goroutine': 2,
                    'connectedness': 'one waiter (current = {p1: Disconnected}) against AssociatePeer(g, p2) resp. UpdateState(p1, Connected); group and first peer set up sequentially; waiter loop cut after 2 iterations (unwinding assertion checked)',
                    'connectedness_coop': 'scenarios 0..3 (associate / update / associate+update / cancel) with the real maps under the symbolic scheduler of DESIGN 4b, preemption bound 2 (quick) / 3 (thorough); the BMC jobs of the connectedness manager run in the thorough tier only',
                    'outside': 'tinder peersCache; for the BMC jobs: maps mutated concurrently (the BMC memory model makes scalar and channel-pointer cells visible; map contents are only read on the checked paths apart from the association itself); more goroutines; memory models weaker than sequential consistency'},
